@@ -13,6 +13,14 @@ vars == <<tid, ri, las, verdict>>
 SetOf(seq) == {seq[i] : i \in DOMAIN seq}
 TT(c) == [i \in DOMAIN c.T |-> [c.T[i] EXCEPT !.fl = SetOf(@)]]
 
+RECURSIVE SubMatches(_, _)
+SubMatches(P, p) ==
+  LET cands == {x \in P : x[1] >= p} IN
+  IF cands = {} THEN <<>>
+  ELSE LET s == CHOOSE a \in {x[1] : x \in cands} : \A b \in {x[1] : x \in cands} : a <= b
+           e == CHOOSE a \in {x[2] : x \in {y \in cands : y[1] = s}} : \A b \in {x[2] : x \in {y \in cands : y[1] = s}} : a >= b
+       IN <<<<s, e>>>> \o SubMatches(P, e)
+
 Judge(c, r, l) ==
   LET T == TT(c)
       order == Order(T, c.rank)
@@ -28,6 +36,10 @@ Judge(c, r, l) ==
            ELSE "matches-differ-from-leftmost-longest")
      ELSE IF \E i \in DOMAIN r.real : ~r.real[i][3] THEN "value-differs-from-parse-of-the-snippet"
      ELSE IF \E i \in DOMAIN r.real : ~r.real[i][4] THEN "positions-are-not-those-of-the-full-text"
+     \* the statement read over substrings (r.sub: every [s, e) that parses on its own without ignored text at its ends):
+     \* leftmost start, then longest end, then on from there.  scan() lexes every attempt against the whole remaining text, so
+     \* maximal munch can reach past a snippet that parses, and a start inside a prefix the attempt ignored is never tried
+     ELSE IF r.hassub /\ SubMatches(AsSet(r.sub), r.a) # real THEN "leftmost-longest-over-substrings-differs@lexed-in-context"
      ELSE "ok"
 
 Init == tid \in 1..NCases /\ ri = -1 /\ las = {} /\ verdict = "ok"
